@@ -9,6 +9,8 @@ import (
 	"bytes"
 	"encoding/json"
 	"fmt"
+	"math"
+	"sort"
 	"strings"
 	"unicode/utf8"
 
@@ -488,11 +490,91 @@ type histOp struct {
 	Empty []int  `json:"empty,omitempty"`
 	Col   int    `json:"col,omitempty"`
 	Val   int    `json:"val,omitempty"`
+	// hdr: Alt selects the texts: 0 h1..hN, 1 g1..gN, 2 the last repeats the first, 3 the last is empty
+	Alt int `json:"alt,omitempty"`
+	// row: Kinds overrides the item of some cells (index -> kind): 1, 2 = THE pointer to shared
+	// Stringer object 1 / 2 (no exported fields: encodes as {}, the text stands in); 3 float64 0;
+	// 4 float64 -0; 5 float32 0; 6 float32 -0; 7 a Stringer value returning ""; 8 a fresh pointer
+	// to a Stringer returning ""; 9 int 0; 10 false
+	Kinds map[int]int `json:"kinds,omitempty"`
+	// mut: shared object Obj gets the text Text (cells keep the text they cached until updated)
+	Obj  int    `json:"obj,omitempty"`
+	Text string `json:"text,omitempty"`
+	// upd: Cell.Update() on every body cell through CellAt, Times times (0 = once)
+	Times int `json:"times,omitempty"`
+	// cb: a render-time callback doing Act (a skip or hdr step) is registered: Where 0 on the
+	// table itself before the cells, 1 on the table itself after the cells, 2 on column Col
+	// itself before the cells, 3 on the table for every cell (before the cell's own)
+	Where int     `json:"where,omitempty"`
+	Act   *histOp `json:"act,omitempty"`
 }
 
 type histSpec struct {
 	Hist []histOp `json:"hist"`
 	Via  int      `json:"via,omitempty"` // 0 json.Render(t), 1 Wrap(t).Render(), 2 a wrapper made before the build
+}
+
+// histCell: what the history says a cell holds: its item and the text the
+// cell cached when it was made or last updated
+type histCell struct {
+	item interface{}
+	text string
+}
+
+type histCB struct {
+	t   *tabular.ATable
+	act histOp
+}
+
+func (cb histCB) UpdateProperties(tabular.PropertyOwner) error {
+	histApply(cb.t, cb.act)
+	return nil
+}
+
+func histHeaderText(alt, i, n int) string {
+	switch {
+	case alt == 1:
+		return fmt.Sprintf("g%d", i+1)
+	case alt == 2 && i == n-1 && n > 1:
+		return "h1"
+	case alt == 3 && i == n-1:
+		return ""
+	}
+	return fmt.Sprintf("h%d", i+1)
+}
+
+// histApply performs a skip or hdr step on the table
+func histApply(t *tabular.ATable, op histOp) {
+	switch op.Op {
+	case "skip":
+		if col := t.Column(op.Col); col != nil {
+			col.SetProperty(properties.Skipable, map[int]interface{}{1: true, 2: false, 3: "yes"}[op.Val])
+		}
+	case "hdr":
+		items := make([]interface{}, op.N)
+		for i := range items {
+			items[i] = histHeaderText(op.Alt, i, op.N)
+		}
+		t.AddHeaders(items...)
+	}
+}
+
+// histText: the text form of the items histories use (C01's documented text)
+func histText(item interface{}, objs map[interface{}]*objData) string {
+	switch x := item.(type) {
+	case nil:
+		return ""
+	case string:
+		return x
+	case valStringer:
+		return x.s
+	case int, bool, float64, float32:
+		return fmt.Sprintf("%v", x)
+	}
+	if od := objs[item]; od != nil {
+		return od.s
+	}
+	panic(fmt.Sprintf("histText: unknown item %T", item))
 }
 
 func histItem(empty bool, i int) (interface{}, VCell) {
@@ -526,37 +608,85 @@ func inInts(xs []int, x int) bool {
 }
 
 // run replays the history on a fresh table through the public API and
-// computes, from the history alone, the view the table must present.
+// computes, from the history alone, the view the table must present when it is
+// rendered (after the render-time callbacks have run).
 func (hs histSpec) run() (View, Outcome) {
 	t := tabular.New()
 	var early *tjson.JSONTable
 	if hs.Via == 2 {
 		early = tjson.Wrap(t)
 	}
-	v := View{}
+	ncols := 0
+	var header *[]string
+	var rows []*[]histCell
 	skip := map[int]int{}
-	for _, op := range hs.Hist {
+	objs := map[interface{}]*objData{} // pointer item -> its state
+	shared := map[int]interface{}{}
+	sharedObj := func(id int) interface{} {
+		if shared[id] == nil {
+			it, od := newObj(1, objData{s: fmt.Sprintf("o%d", id), h: 1})
+			shared[id] = it
+			objs[it] = od
+		}
+		return shared[id]
+	}
+	type regCB struct {
+		phase, col int
+		act        histOp
+	}
+	var cbs []regCB
+	// the effect of a skip / hdr step on the expected state
+	effect := func(op histOp) {
 		switch op.Op {
 		case "hdr":
-			items := make([]interface{}, op.N)
-			cells := make([]VCell, op.N)
-			for i := range items {
-				text := fmt.Sprintf("h%d", i+1)
-				items[i] = text
-				b, _ := json.Marshal(text)
-				js := string(b)
-				cells[i] = VCell{Text: text, JSON: &js, TW: len(text), H: 1}
+			h := make([]string, op.N)
+			for i := range h {
+				h[i] = histHeaderText(op.Alt, i, op.N)
 			}
-			t.AddHeaders(items...)
-			v.Header = &cells
-			if op.N > v.NCols {
-				v.NCols = op.N
+			header = &h
+			if op.N > ncols {
+				ncols = op.N
 			}
+		case "skip":
+			if op.Col >= 0 && op.Col <= ncols { // else no such column yet: Column() is nil, nothing is set
+				skip[op.Col] = op.Val
+			}
+		}
+	}
+	for _, op := range hs.Hist {
+		switch op.Op {
+		case "hdr", "skip":
+			histApply(t, op)
+			effect(op)
 		case "row":
 			items := make([]interface{}, op.N)
-			cells := make([]VCell, op.N)
+			cells := make([]histCell, op.N)
 			for i := range items {
-				items[i], cells[i] = histItem(inInts(op.Empty, i), i)
+				switch op.Kinds[i] {
+				case 1, 2:
+					items[i] = sharedObj(op.Kinds[i])
+				case 3:
+					items[i] = float64(0)
+				case 4:
+					items[i] = math.Copysign(0, -1)
+				case 5:
+					items[i] = float32(0)
+				case 6:
+					items[i] = float32(math.Copysign(0, -1))
+				case 7:
+					items[i] = valStringer{""}
+				case 8:
+					it, od := newObj(1, objData{h: 1})
+					objs[it] = od
+					items[i] = it
+				case 9:
+					items[i] = 0
+				case 10:
+					items[i] = false
+				default:
+					items[i], _ = histItem(inInts(op.Empty, i), i)
+				}
+				cells[i] = histCell{items[i], histText(items[i], objs)}
 			}
 			switch op.How {
 			case 1:
@@ -573,26 +703,59 @@ func (hs histSpec) run() (View, Outcome) {
 			default:
 				t.AddRowItems(items...)
 			}
-			v.Rows = append(v.Rows, &cells)
-			if op.N > v.NCols {
-				v.NCols = op.N
+			rows = append(rows, &cells)
+			if op.N > ncols {
+				ncols = op.N
 			}
 		case "sep":
 			t.AddSeparator()
-			v.Rows = append(v.Rows, nil)
-		case "skip":
-			if op.Col < 0 || op.Col > v.NCols {
-				continue // no such column yet: Column() is nil, nothing is set
+			rows = append(rows, nil)
+		case "mut":
+			sharedObj(op.Obj)
+			objs[shared[op.Obj]].s = op.Text
+		case "upd":
+			for k := 0; k <= op.Times; k++ {
+				for r := 1; r <= t.NRows(); r++ {
+					for c := 1; c <= t.NColumns(); c++ {
+						if cell, err := t.CellAt(tabular.CellLocation{Row: r, Column: c}); err == nil && cell != nil {
+							cell.Update()
+						}
+					}
+				}
 			}
-			if col := t.Column(op.Col); col != nil {
-				col.SetProperty(properties.Skipable, map[int]interface{}{1: true, 2: false, 3: "yes"}[op.Val])
+			for _, row := range rows {
+				if row != nil {
+					for i := range *row {
+						(*row)[i].text = histText((*row)[i].item, objs)
+					}
+				}
 			}
-			skip[op.Col] = op.Val
+		case "cb":
+			if op.Act == nil {
+				continue
+			}
+			cb := histCB{t, *op.Act}
+			switch op.Where {
+			case 0:
+				t.RegisterPropertyCallback(t, tabular.CB_AT_RENDER_PRECELL, tabular.CB_ON_ITSELF, cb)
+				cbs = append(cbs, regCB{0, 0, *op.Act})
+			case 1:
+				t.RegisterPropertyCallback(t, tabular.CB_AT_RENDER_POSTCELL, tabular.CB_ON_ITSELF, cb)
+				cbs = append(cbs, regCB{3, 0, *op.Act})
+			case 2:
+				if op.Col >= 0 && op.Col <= ncols {
+					if col := t.Column(op.Col); col != nil {
+						t.RegisterPropertyCallback(col, tabular.CB_AT_RENDER_PRECELL, tabular.CB_ON_ITSELF, cb)
+					}
+					cbs = append(cbs, regCB{1, op.Col, *op.Act})
+				}
+			case 3:
+				if op.Act.Op == "skip" { // invoked once per cell: only an idempotent action
+					t.RegisterPropertyCallback(t, tabular.CB_AT_RENDER_PRECELL, tabular.CB_ON_CELL, cb)
+					cbs = append(cbs, regCB{2, 0, *op.Act})
+				}
+			}
 		}
-	}
-	for i := 0; i <= v.NCols; i++ {
-		v.Align = append(v.Align, 0)
-		v.Skip = append(v.Skip, skip[i])
 	}
 	o := capture(func() (string, error) {
 		switch hs.Via {
@@ -603,15 +766,70 @@ func (hs histSpec) run() (View, Outcome) {
 		}
 		return tjson.Render(t)
 	})
+	// the render-time callbacks, in the documented order: the table's own before the
+	// cells, each column's own by column number, the per-cell ones, the table's own after
+	sort.SliceStable(cbs, func(i, j int) bool {
+		if cbs[i].phase != cbs[j].phase {
+			return cbs[i].phase < cbs[j].phase
+		}
+		return cbs[i].phase == 1 && cbs[i].col < cbs[j].col
+	})
+	for _, cb := range cbs {
+		if cb.phase == 2 {
+			any := header != nil && len(*header) > 0
+			for _, row := range rows {
+				if row != nil && len(*row) > 0 {
+					any = true
+				}
+			}
+			if !any {
+				continue // no cell, the per-cell callback is never invoked
+			}
+		}
+		effect(cb.act)
+	}
+	v := View{NCols: ncols}
+	if header != nil {
+		cells := make([]VCell, len(*header))
+		for i, text := range *header {
+			b, _ := json.Marshal(text)
+			js := string(b)
+			cells[i] = VCell{Text: text, Empty: text == "", JSON: &js, TW: len(text), H: 1}
+		}
+		v.Header = &cells
+	}
+	for _, row := range rows {
+		if row == nil {
+			v.Rows = append(v.Rows, nil)
+			continue
+		}
+		cells := make([]VCell, len(*row))
+		for i, c := range *row {
+			vc := VCell{Text: c.text, Empty: c.text == "", TW: len(c.text), H: 1}
+			if b, err := json.Marshal(c.item); err == nil {
+				js := string(b)
+				vc.JSON = &js
+			}
+			cells[i] = vc
+		}
+		v.Rows = append(v.Rows, &cells)
+	}
+	for i := 0; i <= v.NCols; i++ {
+		v.Align = append(v.Align, 0)
+		v.Skip = append(v.Skip, skip[i])
+	}
 	return v, o
 }
 
 func (hs histSpec) size() int {
 	n := len(hs.Hist) + hs.Via
 	for _, op := range hs.Hist {
-		n += op.N + len(op.Empty)
+		n += op.N + len(op.Empty) + 2*len(op.Kinds) + 2*op.Times + len(op.Text)
 		if op.Op == "skip" {
 			n += 1
+		}
+		if op.Act != nil {
+			n += 3 + op.Act.N + op.Where
 		}
 	}
 	return n
@@ -656,6 +874,26 @@ func (hs histSpec) shrinks() []histSpec {
 		if op.Op == "row" && op.How != 0 {
 			c := clone()
 			c.Hist[i].How = 0
+			out = append(out, c)
+		}
+		for k := range op.Kinds {
+			c := clone()
+			delete(c.Hist[i].Kinds, k)
+			out = append(out, c)
+		}
+		if op.Times > 0 {
+			c := clone()
+			c.Hist[i].Times = 0
+			out = append(out, c)
+		}
+		if op.Alt != 0 {
+			c := clone()
+			c.Hist[i].Alt = 0
+			out = append(out, c)
+		}
+		if op.Op == "cb" && op.Where != 0 {
+			c := clone()
+			c.Hist[i].Where = 0
 			out = append(out, c)
 		}
 	}
@@ -866,6 +1104,170 @@ func histFamilies(tier string) (small, wide []histSpec) {
 	return small, wide
 }
 
+func hCB(where, col int, act histOp) histOp {
+	return histOp{Op: "cb", Where: where, Col: col, Act: &act}
+}
+func hHdrAlt(n, alt int) histOp { return histOp{Op: "hdr", N: n, Alt: alt} }
+func hUpd(times int) histOp     { return histOp{Op: "upd", Times: times} }
+func hMut(obj int, text string) histOp {
+	return histOp{Op: "mut", Obj: obj, Text: text}
+}
+func hRowK(n int, kinds map[int]int, empty ...int) histOp {
+	return histOp{Op: "row", N: n, Kinds: kinds, Empty: empty}
+}
+
+// histories whose rendering depends on something that happens late: settings and
+// headers changed by render-time callbacks, items that compare equal but encode
+// differently (a shared pointer mutated between rows, signed zeros), cells
+// updated again after the build
+func histFamiliesLate(tier string) []histSpec {
+	var out []histSpec
+	// (e) a render-time callback changes a Skipable setting or the headers
+	type prior struct {
+		name string
+		ops  []histOp
+	}
+	priors := [][]histOp{
+		{hHdr(2)},
+		{hHdr(2), hSkip(2, 2)},
+		{hHdr(2), hSkip(0, 1)},
+		{hHdr(2), hSkip(2, 3)},
+		{}, // no header yet
+	}
+	acts := []histOp{hSkip(2, 1), hSkip(0, 1), hSkip(2, 3), hSkip(0, 3), hSkip(2, 2), hSkip(2, 0), hSkip(0, 0),
+		hHdrAlt(2, 1), hHdrAlt(2, 2), hHdrAlt(2, 3), hHdrAlt(3, 0), hHdrAlt(1, 0)}
+	n := 0
+	for _, pr := range priors {
+		for _, act := range acts {
+			for where := 0; where < 4; where++ {
+				if act.Op == "hdr" && where >= 2 && tier != "thorough" {
+					continue
+				}
+				if act.Op == "hdr" && where == 3 {
+					continue
+				}
+				h := histSpec{Via: n % 3}
+				n++
+				h.Hist = append(h.Hist, pr...)
+				h.Hist = append(h.Hist, hRow(2, n%3, 1), histOp{Op: "sep"}, hRow(2, 0, 0, 1), hRow(1, 0))
+				h.Hist = append(h.Hist, hCB(where, where%3, act))
+				out = append(out, h)
+			}
+		}
+	}
+	// two callbacks: the later one (in invocation order) decides
+	for _, a := range []int{1, 2, 3} {
+		for _, b := range []int{1, 2, 3} {
+			for _, w := range [][2]int{{0, 1}, {1, 0}, {0, 0}, {2, 0}, {3, 2}, {1, 3}} {
+				out = append(out, histSpec{Via: (a + b) % 3, Hist: []histOp{hHdr(2), hRow(2, 0, 0, 1), hRow(2, 0),
+					hCB(w[0], 1, hSkip(2, a)), hCB(w[1], 2, hSkip(2, b))}})
+			}
+		}
+	}
+	// (f) the same pointer in several rows, mutated in between; updated or not
+	alphabet := []histOp{hRowK(1, map[int]int{0: 1}), hRowK(2, map[int]int{0: 2, 1: 1}), hMut(1, "x"), hMut(1, ""), hMut(2, "y"), hUpd(0)}
+	depth := 3
+	if tier == "thorough" {
+		depth = 4
+	}
+	var rec func(ops []histOp, d int)
+	rec = func(ops []histOp, d int) {
+		if len(ops) > 0 {
+			h := histSpec{Via: len(out) % 3, Hist: []histOp{hHdr(2), hSkip(1+len(ops)%2, 1+len(out)%2), hRowK(2, map[int]int{0: 1, 1: 2})}}
+			h.Hist = append(h.Hist, ops...)
+			out = append(out, h)
+		}
+		if d == 0 {
+			return
+		}
+		for _, o := range alphabet {
+			rec(append(append([]histOp{}, ops...), o), d-1)
+		}
+	}
+	rec(nil, depth)
+	// items that are == but encode differently: signed zeros of both float types, int 0, false
+	zs := []int{3, 4, 5, 6, 9, 10}
+	for _, a := range zs {
+		for _, b := range zs {
+			out = append(out, histSpec{Via: (a + b) % 3, Hist: []histOp{hHdr(1), hRowK(1, map[int]int{0: a}), hRowK(1, map[int]int{0: b}), hRowK(1, map[int]int{0: a})}})
+			out = append(out, histSpec{Via: (a * b) % 3, Hist: []histOp{hHdr(3), hRowK(3, map[int]int{0: a, 1: b, 2: a}), histOp{Op: "sep"}, hRowK(2, map[int]int{0: b, 1: a})}})
+		}
+	}
+	// (g) every cell updated again (once, twice, after mutating another item) under every
+	// assignment of Skipable to columns 0..2; empty texts of every kind in the cells
+	for code := 0; code < 64; code++ {
+		for variant := 0; variant < 3; variant++ {
+			h := histSpec{Via: (code + variant) % 3, Hist: []histOp{hHdr(2)}}
+			x := code
+			var sk []histOp
+			for c := 0; c <= 2; c++ {
+				if x%4 != 0 {
+					sk = append(sk, hSkip(c, x%4))
+				}
+				x /= 4
+			}
+			if variant == 1 {
+				h.Hist = append(h.Hist, sk...)
+			}
+			h.Hist = append(h.Hist, hRow(2, code%3, 0, 1), hRowK(2, map[int]int{0: 7, 1: 8}), hRowK(2, map[int]int{1: 1}, 0))
+			switch variant {
+			case 0:
+				h.Hist = append(h.Hist, hUpd(0))
+			case 1:
+				h.Hist = append(h.Hist, hUpd(1))
+			case 2:
+				h.Hist = append(h.Hist, hMut(1, ""), hUpd(0))
+			}
+			if variant != 1 {
+				h.Hist = append(h.Hist, sk...)
+			}
+			out = append(out, h)
+		}
+	}
+	return out
+}
+
+// lateSteps: with small probabilities, the late features on a random history
+func lateSteps(r *RNG, h *histSpec, width int) {
+	if r.Pct(25) {
+		kinds := map[int]int{}
+		n := 1 + r.Intn(min(width, 4))
+		for i := 0; i < n; i++ {
+			if r.Pct(60) {
+				kinds[i] = 1 + r.Intn(10)
+			}
+		}
+		h.Hist = append(h.Hist, hRowK(n, kinds))
+		if r.Pct(50) {
+			h.Hist = append(h.Hist, hMut(1+r.Intn(2), pick(r, []string{"", "m", "o1"})))
+		}
+		if r.Pct(60) {
+			k2 := map[int]int{}
+			for i := 0; i < n; i++ {
+				if r.Pct(60) {
+					k2[i] = 1 + r.Intn(10)
+				}
+			}
+			h.Hist = append(h.Hist, hRowK(n, k2))
+		}
+	}
+	if r.Pct(25) {
+		h.Hist = append(h.Hist, hUpd(r.Intn(2)))
+	}
+	if r.Pct(25) {
+		act := hSkip(r.Intn(width+1), 1+r.Intn(3))
+		if r.Pct(60) {
+			act.Val = 1
+		}
+		where := r.Intn(4)
+		if r.Pct(20) {
+			act = hHdrAlt(width, r.Intn(4))
+			where = r.Intn(2)
+		}
+		h.Hist = append(h.Hist, hCB(where, r.Intn(width+1), act))
+	}
+}
+
 func randHist(r *RNG, maxW int) histSpec {
 	widths := []int{1, 2, 3, 5, 8, 9, 10, 11, 12, 15, 16, 17, 18, 24, 25, 26, 27, 37, 38, 39, 40, 41, 57, 58, 59, 63, 64, 65, 66, 70, 86, 87, 88, 100, 128, 129, 130}
 	h := histSpec{Via: r.Intn(3)}
@@ -948,6 +1350,7 @@ func randHist(r *RNG, maxW int) histSpec {
 		}
 		h.Hist = append(h.Hist, hRow(n, r.Intn(3), empty...))
 	}
+	lateSteps(r, &h, cur)
 	return h
 }
 
@@ -1036,6 +1439,24 @@ func runHistCase(hs histSpec) CaseOut {
 		}
 	}
 	co.Tags = append(co.Tags, "history", fmt.Sprintf("history:widenings=%d", min(widenings, 5)))
+	seen := map[string]bool{}
+	for _, op := range hs.Hist {
+		tag := ""
+		switch {
+		case op.Op == "cb":
+			tag = "history:render-callback"
+		case op.Op == "upd":
+			tag = "history:update-sweep"
+		case op.Op == "mut":
+			tag = "history:shared-item-mutated"
+		case len(op.Kinds) > 0:
+			tag = "history:special-items"
+		}
+		if tag != "" && !seen[tag] {
+			seen[tag] = true
+			co.Tags = append(co.Tags, tag)
+		}
+	}
 	switch {
 	case maxw > 64:
 		co.Tags = append(co.Tags, "history:wider-than-64")
@@ -1059,6 +1480,9 @@ func init() {
 			"build histories (SetProperty / AddHeaders / rows by three paths, interleaved): every assignment of {unset,true,false,non-bool} to column 0 and to ALL columns 1..N (N<=3, thorough 4); " +
 			"a Skipable setting (true / non-bool, on the last column, on column 0, or on every column) made on a table of k columns that is then widened in one step to 9..11, 16, 17, 25, 26, 70, 130 columns by AddHeaders or a row, " +
 			"and chains of such widenings with the then-last column marked before each; tables of 63..130 columns with skipable columns (own, or the column-0 default) at 63..67 and at the edge and empty cells there; random such histories; " +
+			"late effects: a render-time callback (on the table before / after the cells, on a column, per cell) that sets a Skipable value or re-heads the table, under five prior states, and pairs of such callbacks (the view judged is the one after the callbacks ran); " +
+			"the same pointer item (a Stringer without exported fields) in several rows, mutated in between, with and without an update sweep: all step sequences up to length 3 (thorough 4) over 6 steps; all ordered pairs of {0.0, -0.0 (float64, float32), int 0, false} in one table; " +
+			"Cell.Update() on every body cell again (once, twice, after mutating another item) under all 64 Skipable assignments on columns 0..2 with empty texts of every kind (\"\", nil, Stringers returning \"\"); " +
 			"plus a parser self-validation stream (mutated renderer outputs and hand-written snippets: the Coq parser must agree with json.Valid, the token stream and utf8.Valid). " +
 			"A case is non-trivial when rendering succeeded with at least one object; distinct = distinct (view, outcome)",
 		Exhaustive: "row/separator sequences up to length 4 over {separator,0,1,2 cells} x 16 skipable assignments on columns 0,1; up to length 3 x 37 assignments on columns 0..2 with at most two set (thorough: length 5 x 37); all 4^(N+1) Skipable assignments on columns 0..N for N<=3 (thorough 4); the listed one-step and chained widenings",
@@ -1167,6 +1591,9 @@ func init() {
 			// build histories: settings made before widenings, wide tables (see histFamilies)
 			smallH, wideH := histFamilies(tier)
 			for _, h := range smallH {
+				out = append(out, mustJSON(h))
+			}
+			for _, h := range histFamiliesLate(tier) {
 				out = append(out, mustJSON(h))
 			}
 			nh, nhw := 120, 12
